@@ -36,3 +36,14 @@ Definition bmmul (a b : BM) : BM :=
    badd (bmul a21 b11) (bmul a22 b21), badd (bmul a21 b12) (bmul a22 b22)).
 Definition bdiag (x y : B) : BM := (x, b0, b0, y).     (* x (+) y: a multiplexed gate / I (x) V when x = y *)
 End Blocks.
+
+(* Part C (MGDPass): a multiplexed rotation MPR(n, t) on location loc is handed to the
+   target-last decomposition on the location `mgd_loc t loc`: the target qudit moves to the
+   end, the select qudits keep their relative order (the gate's angles are indexed by the
+   select values in that order).  `rot_loc` is the cyclic rotation, which also puts the
+   target last but permutes the selects unless t is the first or last position. *)
+From Coq Require Import List.
+Import ListNotations.
+Definition mgd_loc (t : nat) (loc : list nat) : list nat := firstn t loc ++ skipn (S t) loc ++ [nth t loc O].
+Definition rot_loc (t : nat) (loc : list nat) : list nat := skipn (S t) loc ++ firstn (S t) loc.
+Definition selects (t : nat) (loc : list nat) : list nat := firstn t loc ++ skipn (S t) loc.
